@@ -118,6 +118,18 @@ def _(T, k, start):
     return P.ATAdaptiveAngular(['a', 'b'], adaptation_duration=T, componentwise=True, start_step=start, jump_interval=k)
 
 
+@mfamily('ss_adaptive_normal_fullcov', 'ssc')
+def _(T, k, start):
+    return P.SSAdaptiveNormal(['a', 'b'], cov=numpy.array([[1.0, 0.3], [0.3, 0.5]]), jump_interval=k, jump_interval_duration=T)
+
+
+@mfamily('ss_adaptive_normal_fullcov_capped', 'ssc')
+def _(T, k, start):
+    prop = P.SSAdaptiveNormal(['a', 'b'], cov=numpy.array([[1.0, -0.2], [-0.2, 0.5]]), jump_interval=k, jump_interval_duration=T)
+    prop.max_std = 1.3             # the documented cap (set by the bounded / angular variants; any user may set it)
+    return prop
+
+
 @mfamily('adaptive_eigenvector', 'eigc')
 def _(T, k, start):
     return P.AdaptiveEigenvector(['a', 'b'], adaptation_duration=T, start_step=start, jump_interval=k)
@@ -138,6 +150,10 @@ def rows(m):
 
 
 def snapshot(kind, prop):
+    if kind == 'ssc':
+        cap = float(prop.max_std)
+        return dict(nsteps=int(prop.nsteps), start=int(prop.start_step), target=float(prop.target_rate), cov=rows(prop._cov),
+                    nacc=int(prop.n_accepted), cap=None if math.isinf(cap) else cap)
     s = dict(nsteps=int(prop.nsteps), start=int(prop.start_step), T=int(prop.adaptation_duration), target=float(prop.target_rate),
              decayc=float(prop._decay_const))
     if kind == 'at_full':
@@ -154,7 +170,11 @@ def snapshot(kind, prop):
     return s
 
 
-def coq_case(kind, b, a, ar, ars, x):
+def coq_case(kind, b, a, ar, ars, x, accepted=None):
+    if kind == 'ssc':
+        cap = 'None' if b['cap'] is None else '(Some %s)' % core.cfloat(b['cap'])
+        return 'CSSC %s %s %s %s %s %s %s %s %s' % (mat(b['cov']), Z(b['nacc']), core.cfloat(b['target']), Z(b['start']), cap, Z(b['nsteps']),
+                                                   'true' if accepted else 'false', mat(a['cov']), Z(a['nacc']))
     head = '%s %s %s %s %s' % (Z(b['T']), core.cfloat(b['target']), Z(b['start']), core.cfloat(b['decayc']), Z(b['nsteps']))
     if kind == 'at_full':
         return 'CATF %s %s %s %s %s %s %s %s %s %s %s' % (
